@@ -7,6 +7,7 @@ HOOK_COMMITS = [l.split()[0] for l in HOOK_COMMITS if l.split(" ", 1)[1].startsw
 
 ENGINES = {
  "crashx": ("harness/src/crashx.rs, harness/src/props/crash.rs, shim/vshim.c", "LD_PRELOAD tracer records every mutating libc call of a worker process running the real store; the parent replays the trace into a file-system model, enumerates every crash point x image family, materialises each distinct image and recovers it with the real store; tracer self-check (replayed trace == real directory) on every run"),
+ "damage-sweep": ("harness/src/props/c16.rs", "every damage position x damage kind of a file, evaluated in worker subprocesses (abort/hang attributed through a progress file), answers compared with the pristine answers"),
  "seqx-component": ("harness/src/props/c04.rs, c12.rs, c13.rs, c18.rs", "bounded-exhaustive enumeration against real components reached through the cfg(surrealkv_verif) facades (conflict oracle, commit-log writer/reader/repair, table writer/reader, B+tree), each compared with a small reference model"),
  "seqx-txn": ("harness/src/props/c08.rs, harness/src/props/c09.rs", "bounded-exhaustive programs (transaction calls / cursor calls) against the real Transaction API on stores built by a construction script, compared call by call with a reference model"),
  "seqx-world": ("harness/src/world.rs", "bounded-exhaustive operation sequences on the real store under a harness-driven single-threaded runtime (background tasks run only where the sequence says), compared with a reference model after every step; stateless re-execution from a fresh directory"),
@@ -51,6 +52,9 @@ CHECKS = {
  "C15": dict(engine="crashx", cat="fault_enumeration", tech="exhaustive fault-position enumeration (every call position of every call class x error kind x once/persistent) injected at the libc boundary into traced executions of the real store",
   text="Four workloads (commits of both durabilities against a tiny memtable, explicit and in-apply rotation, flush, background drain; plain / value-log / version-index / flush-on-close option sets) run once per injected fault: every position of every mutating call class (write-like: EIO, ENOSPC, short write then ENOSPC; fsync: EIO; rename: EIO; create: ENOSPC), once and persistently. The worker reads the visible key set after every operation and then dies; the directory it leaves is reopened with faults off. A commit that returned an error must never be visible; acknowledged commits must stay readable; commits acknowledged after a failed commit (all acknowledged commits if no error was ever reported) must survive the crash; no panic, no hang.",
   note="Faults are injected by the LD_PRELOAD shim after the initial open. Whether a failed commit's WAL record reappears after recovery is not judged; durability of commits acknowledged before a *reported* I/O failure is not judged (counted in evidence).", ref="DESIGN.md §5 C15"),
+ "C16": dict(engine="damage-sweep", cat="fault_enumeration", tech="exhaustive single-bit / single-byte / truncation damage enumeration over files written by the real code, read back through the real readers in isolated worker processes",
+  text="For every byte position of table files in several formats (real TableWriter, read through the production file implementation) and of the table, commit-log (absolute-consistency mode) and value-log (full checksum verification) files of small databases built by the real store: each of the 8 single-bit flips, XOR 0xff and, for tables, truncation at that offset; every point lookup (every key incl. absent ones x snapshots) and both scan directions, respectively open + reads of the database, must return the pristine answer or an error. Workers run as subprocesses with a progress file so that aborts and hangs are attributed to the exact position.",
+  note="Single-bit/byte damage and truncation only; the manifest is not in the property's scope and is not swept; in repair mode a consistent prefix of the commit log is the documented outcome (judged by C12), so the commit-log case uses absolute-consistency mode.", ref="DESIGN.md §5 C16"),
 }
 
 NOT_YET = {}
